@@ -281,7 +281,7 @@ func init() {
 		o := o
 		p.Strata = append(p.Strata, mon.Stratum{
 			Name: "bulky-members/" + o.Name,
-			N:    qt(1200, 60000),
+			N:    qt(1200, 15000),
 			Run: func(c *mon.Ctx, i int) {
 				// members that are long strings differing only in the middle, and members held
 				// 3..300 times: identity by a shortened digest or a narrow counter shows here
